@@ -186,6 +186,11 @@ fn process_dir(
                 writeln!(&mut stderr(), "Error: {err}").unwrap();
             }
             Ok(entry) => {
+                // walkdir clamps min_depth down to max_depth; with
+                // -mindepth > -maxdepth no entry is in range.
+                if config.min_depth > config.max_depth {
+                    continue;
+                }
                 let mut matcher_io = matchers::MatcherIO::new(deps);
 
                 let new_dir = entry.path().parent().map(|x| x.to_path_buf());
